@@ -1,5 +1,7 @@
 import Smpp.Model.Conn
 import Driver.SmsOps
+import Driver.PduOps
+import Smpp.Generated.Layouts
 
 namespace Driver
 open Smpp Smpp.Conn
@@ -76,6 +78,19 @@ def connEvent (n : Nat) (s : State) (ev : String) : Option State :=
     match r.splitOn ":" with
     | [a, b] => do app [.peerUnsol (← parseInt? a) (← b.toNat?)]
     | _ => none
+  else if let some r := dropPrefix ev "raw:" then
+    -- a frame given octet by octet: classified by the byte-level model of ReadPDU (C03 / C04)
+    match r.splitOn ":" with
+    | [k, hex] => do
+      let kk ← k.toNat?
+      let bs ← fromHex hex
+      let toI := fun (u : UInt32) => if u.toNat < 2147483648 then (u.toNat : Int) else (u.toNat : Int) - 4294967296
+      match (Smpp.Pdu.readPDU Smpp.Generated.pduLayouts [bs]).out with
+      | .ok _ (.header h :: _) => app [.peerUnsol (toI h.seq) kk]
+      | .ok _ _ => app [.peerFatal]
+      | .errPdu _ _ seq => app [.peerBad (toI seq) kk]
+      | .errNil _ => app [.peerFatal]
+    | _ => none
   else if let some r := dropPrefix ev "bad:" then
     match r.splitOn ":" with
     | [a, b] => do app [.peerBad (← parseInt? a) (← b.toNat?)]
@@ -96,6 +111,7 @@ def connOp (op : String) (args : List String) : Option String :=
     -- Watch starts at once and parks in Read
     let s0 := quiesce n s0 50
     let s ← events.foldlM (fun s ev => connEvent n s ev) s0
+    let done0 := s.connDone
     let s ← connEvent n s "drain1"   -- finally the application drains and everything settles
     -- Close's own context is a child of the connection context: err:ctx and err:closed are the same outcome for it
     let showC := fun i =>
@@ -104,7 +120,7 @@ def connOp (op : String) (args : List String) : Option String :=
     let callers := " ".intercalate ((List.range n).map showC)
     let wire := if s.wire.isEmpty then "-" else ",".intercalate (s.wire.map showOut)
     let del := if s.delivered.isEmpty then "-" else ",".intercalate (s.delivered.map showPdu)
-    some s!"callers={callers} wire={wire} delivered={del} watch={showWatch s.watch} done={s.connDone} qclosed={s.queueClosed} panic={s.panicked}"
+    some s!"callers={callers} wire={wire} delivered={del} watch={showWatch s.watch} done0={done0} done={s.connDone} qclosed={s.queueClosed} panic={s.panicked}"
   | _, _ => none
 
 end Driver
